@@ -408,7 +408,9 @@ func (vc *VC) finish() {
 		}
 		env.vars["calleesok"] = boolV(eq(vc.def("nfail_exit", SInt, nf), "0"))
 		for _, c := range vc.con.NoAlloc {
-			o := vc.oblige("noalloc", Rexit, implies(vc.evalBool(c.E, env), eq(n, "0")), vc.fn.Pos(), "no heap allocation when "+c.Text)
+			cond := vc.evalBool(c.E, env)
+			o := vc.oblige("noalloc", Rexit, implies(cond, eq(n, "0")), vc.fn.Pos(), "no heap allocation when "+c.Text)
+			o.GoalFree = cond // the replay looks for ANY input that returns under this condition and measures it
 			o.Name = fmt.Sprintf("%s#noalloc.%d", vc.fname(), c.Ord)
 			o.Tags = c.Tags
 		}
